@@ -5,7 +5,7 @@
 (* Operand TEXT CLASSES (the harness spells them with register r1, the     *)
 (* enumeration key kx, the number 5, the label lab):                       *)
 (*   r  r2  [r]  [r+n]  [n]  [[n]]  r+n  key  num  lab  {n}                *)
-(*   r++  @r  (decorated register)                                         *)
+(*   r++  @r  (decorated register)   -[r]  (decorated indirect register)   *)
 (*   a statement may also have NO operand text at all (the empty tuple): an *)
 (*   explicitly listed combination consisting of the "empty" operand       *)
 (*   accepts exactly that (the documented "pop" form); the empty operand   *)
@@ -42,10 +42,10 @@ vars == <<isa, texts>>
 A(id, ty, off, curly) == [id |-> id, ty |-> ty, off |-> off, curly |-> curly]
 
 Rank(ty) ==
-    CASE ty = "indirect_register" -> 2 [] ty = "indirect_indexed_register" -> 3 [] ty = "indirect_numeric" -> 4
+    CASE ty \in {"indirect_register", "indirect_register_pre"} -> 2 [] ty = "indirect_indexed_register" -> 3 [] ty = "indirect_numeric" -> 4
       [] ty = "deferred_numeric" -> 5 [] ty = "indexed_register" -> 6 [] ty = "enumeration" -> 7
       [] ty \in {"register", "register_pp", "register_at"} -> 8        \* a decorated register is a register operand
-      [] ty = "numeric" -> 9 [] ty = "address" -> 10 [] ty = "relative_address" -> 11 [] ty = "numeric_bytecode" -> 12
+      [] ty \in {"numeric", "numeric_va"} -> 9 [] ty = "address" -> 10 [] ty = "relative_address" -> 11 [] ty = "numeric_bytecode" -> 12
       [] OTHER -> 99
 
 \* does alternative a accept operand text class t?  (register operands are for r1; r2 is another declared register)
@@ -54,6 +54,7 @@ Acc(a, t) ==
       [] a.ty = "register_pp" -> t = "r++"          \* register with the postfix decorator ++
       [] a.ty = "register_at" -> t = "@r"           \* register with the prefix decorator @
       [] a.ty = "indirect_register" -> t = "[r]" \/ (a.off /\ t = "[r+n]")
+      [] a.ty = "indirect_register_pre" -> t = "-[r]"          \* indirect register with the prefix decorator -
       [] a.ty = "indirect_indexed_register" -> t = "[r+n]"
       [] a.ty = "indirect_numeric" -> t = "[n]"
       [] a.ty = "deferred_numeric" -> t = "[[n]]"
@@ -61,7 +62,8 @@ Acc(a, t) ==
       [] a.ty = "enumeration" -> t = "key"
       \* a numeric expression: numbers and labels (an enumeration key is, as text, an identifier, i.e. a label);
       \* NEVER a register name, alone or inside the expression
-      [] a.ty \in {"numeric", "address", "numeric_bytecode"} -> t \in {"num", "lab", "key", "hexa", "chra"}
+      \* numeric_va: a numeric operand whose value must be a valid address - the flag changes nothing about what text it accepts
+      [] a.ty \in {"numeric", "numeric_va", "address", "numeric_bytecode"} -> t \in {"num", "lab", "key", "hexa", "chra"}
       [] a.ty = "relative_address" -> IF a.curly THEN t = "{n}" ELSE t \in {"num", "lab", "key", "hexa", "chra"}
       [] OTHER -> FALSE
 
@@ -129,7 +131,7 @@ Spec == Init /\ [][Next]_vars
 SelectedIsLeastAccepting == isa # <<>> => Select(isa, texts, 1) = SelectDecl(isa, texts)
 RegisterNeverNumeric ==
     \A i \in 1..Len(isa) : \A k \in 1..Len(isa[i].sets) : \A a \in 1..Len(isa[i].sets[k]) :
-        isa[i].sets[k][a].ty \in {"numeric", "address", "numeric_bytecode", "relative_address"}
+        isa[i].sets[k][a].ty \in {"numeric", "numeric_va", "address", "numeric_bytecode", "relative_address"}
             => ~Acc(isa[i].sets[k][a], "r") /\ ~Acc(isa[i].sets[k][a], "r2") /\ ~Acc(isa[i].sets[k][a], "r+n")
 NoAcceptingMeansRejected ==
     isa # <<>> => (Select(isa, texts, 1).ok <=> \E i \in 1..Len(isa) : VariantAccepts(isa[i], texts))
